@@ -6,6 +6,9 @@ pub mod c03;
 pub mod c04;
 pub mod c05;
 pub mod c06;
+pub mod c09;
+pub mod c11;
+pub mod c12;
 pub mod c14;
 
 pub fn c03_targeted_small() -> Vec<String> {
@@ -21,6 +24,9 @@ macro_rules! dispatch {
             "C04" => c04::$f($ctx $(, $arg)?),
             "C05" => c05::$f($ctx $(, $arg)?),
             "C06" => c06::$f($ctx $(, $arg)?),
+            "C09" => c09::$f($ctx $(, $arg)?),
+            "C11" => c11::$f($ctx $(, $arg)?),
+            "C12" => c12::$f($ctx $(, $arg)?),
             "C14" => c14::$f($ctx $(, $arg)?),
             other => {
                 eprintln!("unknown monitor {other}");
